@@ -14,6 +14,13 @@ import (
 
 func init() {
 	if len(os.Args) > 1 && os.Args[1] == "bench" {
+		go bench()
+		select {}
+	}
+}
+
+func bench() {
+	{
 		evmkit.Silence()
 		kinds := "VBU"
 		if len(os.Args) > 2 {
